@@ -190,13 +190,25 @@ func rulePDF417Encoder(c *Ctx) {
 		n.BindParams(fn, "data", "level", "color")
 		bindCalls(n, c.P, fn, nil, map[string][2]string{"pdf417.calcDimensions": {"cols", "rows"}, "pdf417.highlevelEncode": {"words", "hlErr"}, "pdf417.encodeData": {"cw", "edErr"}})
 		// row loop counter: the rangeindex used as rowNum = arg0 of getLeftCodeWord
-		left := c.P.deepCallsTo(fn, c.P.Func("pdf417.getLeftCodeWord"))
-		right := c.P.deepCallsTo(fn, c.P.Func("pdf417.getRightCodeWord"))
+		lf, rf := c.P.Func("pdf417.getLeftCodeWord"), c.P.Func("pdf417.getRightCodeWord")
+		if lf == nil || rf == nil {
+			lf, rf = pdfIndicatorFuncs(c) // recognised by their role in the row
+		}
+		left := c.P.deepCallsTo(fn, lf)
+		right := c.P.deepCallsTo(fn, rf)
 		gcw := c.P.deepCallsTo(fn, c.P.Func("pdf417.getCodeword"))
 		if len(left) != 1 || len(right) != 1 || len(gcw) != 3 {
 			c.Check(R6, "pdf417.EncodeWithColor/shape", fn.Pos(), false, "one left, one right indicator call and three getCodeword calls", fmt.Sprintf("%d/%d/%d", len(left), len(right), len(gcw)))
 		} else {
 			row := left[0].Ins.(*ssa.Call).Common().Args[0]
+			if !isIntType(row.Type()) {
+				// the row number is not the first argument: the index of the row loop around the call
+				if h := enclosingLoopHeader(left[0].Ins.Block()); h != nil {
+					if idx, _, init, ok := loopIndex(h); ok && init == 0 {
+						row = idx
+					}
+				}
+			}
 			n.Bind[row] = "r"
 			for _, s := range append(left, right...) {
 				call := s.Ins.(*ssa.Call)
